@@ -146,7 +146,7 @@ PROPS = {
              "from NewMapPollardFromRoots at a reached state; after EVERY operation the stored map and cached leaves are dumped: "
              "every stored (pos,hash) true, stored within allowed(R), needed(R) within stored, cached set = R, look-ups, canonical "
              "proofs of random sub-lists of R; distinct_nontrivial = distinct operation sequences",
-        strength="P: ordering of needed positions; V: stored/needed/allowed invariants and provability after every operation",
+        strength="P: ordering of needed positions; V: stored/needed/allowed invariants and provability after every operation; mirror of the read side (Model/MapRead.v: Prove, GetHash, GetLeafPosition(s), GetRoots, GetMissingPositions, VerifyPartialProof, verify) = code on every dumped state",
         level_text="needed(R) and allowed(R) are defined on the Coq reference; after every operation of random interleavings the "
                    "extracted oracle checks the dumped partial forest against them and against the true hashes.",
         technique="Coq reference model + extracted-oracle invariant check after every operation",
@@ -218,7 +218,7 @@ PROPS = {
         rule=HIST_RULE + "; after every block: GetLeafPosition for every live leaf, every dead leaf, every internal node hash and a "
              "fresh hash; GetHash for every position in [0, 2^(rows+1)+3] and 2^40, 2^63, 2^64-2, 2^64-1; NodeMap/NumDels/"
              "CachedLeaves counts; Pollard and full MapPollard (TotalRows 0,4,63)",
-        strength="P: look-up theorems on the reference; V: implementation look-ups = reference",
+        strength="P: look-up theorems on the reference; V: implementation look-ups = reference; mirror of the MapPollard read side (Model/MapRead.v) = code on every dumped state",
         level_text="Look-up semantics are theorems about the reference layout; every look-up the implementation answers along random "
                    "histories is judged by the extracted oracle. One known finding (D7) is reported, any other wrong answer is a violation.",
         technique="Coq reference model + extracted-oracle correspondence",
